@@ -39,7 +39,7 @@ TRUSTED = [
     "cfg-gated hook ops run, check, refactor (src/verif_hooks.rs); reported violations are confirmed through the plain CLI",
 ]
 
-STMT_LIKE = ("let", "assign", "while", "for")
+STMT_LIKE = ("let", "assign", "break", "continue")      # not expressions with a value; loops ARE (they evaluate to Unit)
 
 
 def dbg_values(stderr):
@@ -53,6 +53,34 @@ def is_subseq(a, b):
     return all(x in it for x in a)
 
 
+def escapes_loop(e):
+    """Does e contain a break/continue that belongs to a loop OUTSIDE e?"""
+    def go(n, depth):
+        if isinstance(n, list):
+            return any(go(x, depth) for x in n)
+        k = n["k"]
+        if k in ("break", "continue"):
+            return depth == 0
+        if k == "fun":
+            return False
+        d2 = depth + 1 if k in ("while", "for") else depth
+        for key in ("e", "c", "l", "r", "s", "f", "it"):
+            v = n.get(key)
+            if isinstance(v, dict) and go(v, depth):
+                return True
+        for key in ("args", "es"):
+            if any(go(x, depth) for x in n.get(key, []) or []):
+                return True
+        for key in ("t", "b", "some", "none", "body"):
+            v = n.get(key)
+            if isinstance(v, list) and go(v, d2):
+                return True
+        if k == "if" and isinstance(n.get("e"), list) and go(n["e"], d2):
+            return True
+        return False
+    return go(e, 0)
+
+
 def search_dbg(ctx, exe, progs, per_prog):
     jobs, meta = [], []
     for prog in progs:
@@ -63,7 +91,7 @@ def search_dbg(ctx, exe, progs, per_prog):
         for st, en, e in nodes[:per_prog]:
             exp = (sb[:st] + b"dbg(" + sb[st:en] + b")" + sb[en:]).decode("utf-8")
             jobs.append(("wrap-in-dbg", src, st, en, None))
-            meta.append({"src": src, "st": st, "en": en, "kind": e["k"], "expected": exp})
+            meta.append({"src": src, "st": st, "en": en, "kind": e["k"], "expected": exp, "escapes": escapes_loop(e)})
     ctx.log("wrap-in-dbg: %d requests" % len(jobs))
     outs = R.refactor_many(exe, jobs, ctx)
     keys = list(dict.fromkeys([m["src"] for m in meta] + [o[1] for o in outs if o[0] == 0]))
@@ -93,6 +121,12 @@ def search_dbg(ctx, exe, progs, per_prog):
         if r1[0] in ("parse_error", "crashed", "no_response"):
             viol("C21:dbg-breaks-program:" + m["kind"], "the wrapped program does not parse/run: %s" % (r1[:2],),
                  observed=out, run=r1[:2])
+        elif r0[:3] != r1[:3] and m.get("escapes"):
+            # the wrapped expression contains a break/continue of an ENCLOSING loop: inside dbg(...) it is in operand
+            # position, where the evaluator leaks operand values (the known finding of C05)
+            viol("C21:dbg-changes-behaviour:break-leaves-wrapped-expression",
+                 "wrapping an expression that contains a `break`/`continue` of an enclosing loop: %s vs %s" % (r0[:3], r1[:3]),
+                 observed=out, original_run=r0[:3], wrapped_run=r1[:3])
         elif r0[:3] != r1[:3]:
             viol("C21:dbg-changes-behaviour:" + m["kind"], "stdout/result differ: %s vs %s" % (r0[:3], r1[:3]),
                  observed=out, original_run=r0[:3], wrapped_run=r1[:3])
